@@ -170,7 +170,7 @@ private:
 	void ha_on_returned(KSI_AsyncHandle *h, size_t waiting);
 	void ha_final_checks();
 	void ha_before_add(HRec &r);
-	bool ha_endpoint_clean(const HRec &r, const Attempt &a, size_t ei, std::string &why);
+	bool ha_endpoint_clean(const HRec &r, const Attempt &a, size_t ei, std::string &why, uint64_t upto = 0);
 	uint64_t ha_sent_seq(const HRec &r, size_t ei, uint64_t after, uint64_t *id_out = nullptr);
 	std::vector<std::pair<uint64_t, uint64_t>> ha_sent_all(const HRec &r, size_t ei, uint64_t after);
 	ref::ConfVals ha_expected_conf();
